@@ -633,6 +633,20 @@ def type_of(I, st, v):
 
 # ------------------------------------------------------------------------------------------------ builtins
 
+def b_getattr(I, st, args, kw, node):
+    """getattr(o, "name"[, default]) with a constant name: the attribute when the object's class declares it, else the
+    default"""
+    if len(args) < 2 or not (isinstance(args[1], VStr) and args[1].text is not None):
+        raise Unsupported("getattr with a non-constant name")
+    o, name = args[0], args[1].text
+    try:
+        return I.getattr(o, name, st, node)
+    except Unsupported:
+        if len(args) >= 3:
+            return args[2]
+        raise
+
+
 def b_len(I, st, args, kw, node):
     (v,) = args
     if isinstance(v, Opt):
@@ -952,6 +966,7 @@ BUILTIN_FUNCS = {
     "prime": lambda I, st, a, k, n: _prime(st, a[0]),
     "hint": lambda I, st, a, k, n: _hint(st, a[0]),
     "np_round": lambda I, st, a, k, n: _UROUND(to_real(a[0]), _z(a[1])),
+    "getattr": b_getattr,
     "len": b_len, "range": b_range, "enumerate": b_enumerate, "zip": b_zip,
     "max": b_max, "min": lambda I, st, a, k, n: b_max(I, st, a, k, n, is_max=False),
     "abs": b_abs, "int": b_int, "float": b_float, "bool": b_bool, "list": b_list, "tuple": b_tuple, "pow": b_pow,
